@@ -10,7 +10,12 @@ import (
 	"strings"
 
 	ucfg "github.com/elastic/go-ucfg"
+	"github.com/elastic/go-ucfg/parse"
 )
+
+type ucfgParseConfig = parse.Config
+
+var parseDefault = parse.DefaultConfig
 
 func init() {
 	register("C10", genC10)
@@ -280,5 +285,257 @@ func genC10(g *Gen) {
 				"destination after": dstAfter.desc, "then": fdesc,
 				"replay": map[string]interface{}{"src": encTree(srcData), "dst": encTree(dstData), "policy": policyOpts[pol].name, "mode": mode, "varexp": varexp}},
 			Tags: []string{"source:" + src.how, "policy:" + policyOpts[pol].name, fmt.Sprintf("follows=%d", k), fmt.Sprintf("varexp=%v", varexp)}, Nontrivial: true})
+	}
+}
+
+// ---- C11: reads are pure ---------------------------------------------------------------------
+
+func init() { register("C11", genC11) }
+
+type c11Captured struct {
+	Sub  *ucfg.Config            `config:"s"`
+	Subs map[string]*ucfg.Config `config:"m"`
+	A    string                  `config:"a"`
+	L    []interface{}           `config:"l"`
+	N    map[string]interface{}  `config:"n"`
+}
+
+type c11Read struct {
+	name string
+	run  func(c *ucfg.Config, opts []ucfg.Option, st *c11State) string
+}
+
+type c11State struct {
+	captured *c11Captured // a target that is unpacked into more than once
+	generic  map[string]interface{}
+}
+
+func resErr(err error) string {
+	if err == nil {
+		return ""
+	}
+	if e, ok := err.(ucfg.Error); ok {
+		return " error " + reasonName(e)
+	}
+	return " error (untyped)"
+}
+
+var c11Names = []string{"a", "b", "s", "s.x", "s.r", "m", "m.k", "l", "l.0", "l.1", "n", "n.k", "z", "r", "q", "o", "o.k", "p.0"}
+
+func c11Reads() []c11Read {
+	var rs []c11Read
+	for _, n := range c11Names {
+		n := n
+		rs = append(rs,
+			c11Read{"String " + n, func(c *ucfg.Config, o []ucfg.Option, _ *c11State) string { s, err := c.String(n, -1, o...); return s + resErr(err) }},
+			c11Read{"Int " + n, func(c *ucfg.Config, o []ucfg.Option, _ *c11State) string { v, err := c.Int(n, -1, o...); return fmt.Sprint(v) + resErr(err) }},
+			c11Read{"Bool " + n, func(c *ucfg.Config, o []ucfg.Option, _ *c11State) string { v, err := c.Bool(n, -1, o...); return fmt.Sprint(v) + resErr(err) }},
+			c11Read{"Has " + n, func(c *ucfg.Config, o []ucfg.Option, _ *c11State) string { v, err := c.Has(n, -1, o...); return fmt.Sprint(v) + resErr(err) }},
+			c11Read{"Child " + n, func(c *ucfg.Config, o []ucfg.Option, _ *c11State) string {
+				ch, err := c.Child(n, -1, o...)
+				if err != nil {
+					return resErr(err)
+				}
+				return descValue(ucfg.VerifDump(ch)) + " path=" + ch.Path(".")
+			}},
+			c11Read{"CountField " + n, func(c *ucfg.Config, o []ucfg.Option, _ *c11State) string { v, err := c.CountField(n); return fmt.Sprint(v) + resErr(err) }},
+		)
+	}
+	rs = append(rs,
+		c11Read{"GetFields", func(c *ucfg.Config, o []ucfg.Option, _ *c11State) string { f := c.GetFields(); sort.Strings(f); return strings.Join(f, ",") }},
+		c11Read{"Path", func(c *ucfg.Config, o []ucfg.Option, _ *c11State) string { return c.Path(".") + "|" + c.PathOf("a", ".") }},
+		c11Read{"IsDict/IsArray", func(c *ucfg.Config, o []ucfg.Option, _ *c11State) string { return fmt.Sprint(c.IsDict(), c.IsArray()) }},
+		c11Read{"FlattenedKeys", func(c *ucfg.Config, o []ucfg.Option, _ *c11State) string { k := c.FlattenedKeys(o...); sort.Strings(k); return strings.Join(k, ",") }},
+		c11Read{"Unpack generic", func(c *ucfg.Config, o []ucfg.Option, _ *c11State) string {
+			var m map[string]interface{}
+			err := c.Unpack(&m, o...)
+			return descTree(m) + resErr(err)
+		}},
+		c11Read{"Unpack generic again (same target)", func(c *ucfg.Config, o []ucfg.Option, st *c11State) string {
+			err := c.Unpack(&st.generic, o...)
+			return descTree(st.generic) + resErr(err)
+		}},
+		c11Read{"Unpack captured (fresh target)", func(c *ucfg.Config, o []ucfg.Option, _ *c11State) string {
+			var t c11Captured
+			err := c.Unpack(&t, o...)
+			return descCaptured(&t) + resErr(err)
+		}},
+		c11Read{"Unpack captured again (same target)", func(c *ucfg.Config, o []ucfg.Option, st *c11State) string {
+			err := c.Unpack(st.captured, o...)
+			return descCaptured(st.captured) + resErr(err)
+		}},
+		c11Read{"Unpack captured append (same target)", func(c *ucfg.Config, o []ucfg.Option, st *c11State) string {
+			err := c.Unpack(st.captured, append(append([]ucfg.Option{}, o...), ucfg.AppendValues)...)
+			return "append:" + resErr(err)
+		}},
+		c11Read{"merge source", func(c *ucfg.Config, o []ucfg.Option, _ *c11State) string {
+			d := ucfg.New()
+			err := d.Merge(c, o...)
+			return descValue(ucfg.VerifDump(d)) + resErr(err)
+		}},
+		c11Read{"merge source into objects", func(c *ucfg.Config, o []ucfg.Option, _ *c11State) string {
+			d, _ := ucfg.NewFrom(map[string]interface{}{"z": map[string]interface{}{"w": 1}, "s": map[string]interface{}{"w": 1}, "n": map[string]interface{}{"k": map[string]interface{}{"w": 1}}}, o...)
+			err := d.Merge(c, o...)
+			return descValue(ucfg.VerifDump(d)) + resErr(err)
+		}},
+		c11Read{"child of null, written", func(c *ucfg.Config, o []ucfg.Option, _ *c11State) string {
+			ch, err := c.Child("z", -1, o...)
+			if err != nil {
+				return resErr(err)
+			}
+			werr := ch.SetString("w", -1, "written into the reader's object", o...)
+			return "child z" + resErr(werr)
+		}},
+	)
+	return rs
+}
+
+func descCaptured(t *c11Captured) string {
+	var b strings.Builder
+	if t.Sub != nil {
+		b.WriteString("s=" + descValue(ucfg.VerifDump(t.Sub)))
+	}
+	keys := make([]string, 0, len(t.Subs))
+	for k := range t.Subs {
+		keys = append(keys, k)
+	}
+	sort.Strings(keys)
+	for _, k := range keys {
+		if t.Subs[k] != nil {
+			b.WriteString(" m." + k + "=" + descValue(ucfg.VerifDump(t.Subs[k])))
+		}
+	}
+	b.WriteString(" a=" + t.A + " l=" + descTree(t.L) + " n=" + descTree(t.N))
+	return b.String()
+}
+
+func genC11(g *Gen) {
+	debug.SetGCPercent(-1)
+	r := g.R
+	reads := c11Reads()
+	tc := TreeCfg{Keys: []string{"a", "b", "x", "k"}, MaxDepth: 2, MaxWidth: 3, PNil: 3, PEmpty: 3}
+	for i := 0; i < g.N; i++ {
+		data := map[string]interface{}{
+			"a": randScalar(r), "b": "${a}", "s": map[string]interface{}{"x": randTree(r, tc, 1), "r": "${a}-${s.x:d}"},
+			"m": map[string]interface{}{"k": randMap(r, tc, 1), "j": nil}, "l": []interface{}{randTree(r, tc, 1), nil, "${l.0:e}"},
+			"n": randMap(r, tc, 0), "z": nil, "r": "${res}", "q": "${obj}", "o": "${obj}", "p": "${lst}",
+		}
+		if r.P(1, 3) {
+			data["n"] = nil
+		}
+		resolver := func(name string) (string, ucfgParseConfig, error) {
+			switch name {
+			case "res":
+				return "resolved", parseDefault, nil
+			case "obj":
+				return "{k: v, j: [1, 2]}", parseDefault, nil
+			case "lst":
+				return "[x, {y: 1}]", parseDefault, nil
+			}
+			return "", parseDefault, ucfg.ErrMissing
+		}
+		opts := []ucfg.Option{ucfg.PathSep("."), ucfg.VarExp, ucfg.Resolve(resolver)}
+		g.Mark(map[string]interface{}{"data": encTree(data)})
+		c, err := ucfg.NewFrom(data, opts...)
+		if err != nil {
+			g.Skip("not built")
+			continue
+		}
+		ren := newRenamer()
+		st := &c11State{captured: &c11Captured{}}
+		// every read on its own, twice, with the object graph observed around it
+		k := 6 + r.Intn(8)
+		var seq [][2]string
+		for j := 0; j < k; j++ {
+			rd := reads[r.Intn(len(reads))]
+			if r.P(2, 5) { // the whole-config reads (Unpack, merge source, ...) are the last 14
+				rd = reads[len(reads)-14+r.Intn(14)]
+			}
+			before := snapshotNoReads(c, ren)
+			var r1, r2 string
+			p1, m1 := guard(func() { r1 = rd.run(c, opts, st) })
+			p2, m2 := guard(func() { r2 = rd.run(c, opts, st) })
+			if p1 {
+				r1 = "PANIC " + m1
+			}
+			if p2 {
+				r2 = "PANIC " + m2
+			}
+			after := snapshotNoReads(c, ren)
+			seq = append(seq, [2]string{rd.name, r1})
+			stateful := strings.Contains(rd.name, "same target")
+			if stateful {
+				r2 = r1 // the target accumulates by design; only the config is compared
+			}
+			g.Add(Case{Coq: fmt.Sprintf("CRead11 %s %s %s %s %s", coqStr(rd.name), before.coq, after.coq, coqStr(r1), coqStr(r2)),
+				Desc: map[string]interface{}{"kind": "read", "read": rd.name, "config": before.desc, "after": after.desc, "result": r1, "result again": r2,
+					"replay": map[string]interface{}{"data": encTree(data)}},
+				Tags: []string{"read:" + strings.SplitN(rd.name, " ", 2)[0]}, Nontrivial: true})
+		}
+		// the stateless reads again, all at once from several goroutines
+		var pure []c11Read
+		for _, rd := range reads {
+			if !strings.Contains(rd.name, "same target") && !strings.Contains(rd.name, "written") {
+				pure = append(pure, rd)
+			}
+		}
+		nG := 4 + r.Intn(5)
+		picks := make([][]int, nG)
+		for gi := range picks {
+			for j := 0; j < 12; j++ {
+				picks[gi] = append(picks[gi], r.Intn(len(pure)))
+			}
+		}
+		base := map[int]string{}
+		for _, ps := range picks {
+			for _, pi := range ps {
+				if _, ok := base[pi]; !ok {
+					p, m := guard(func() { base[pi] = pure[pi].run(c, opts, st) })
+					if p {
+						base[pi] = "PANIC " + m
+					}
+				}
+			}
+		}
+		before := snapshotNoReads(c, ren)
+		results := make([][]string, nG)
+		done := make(chan int, nG)
+		for gi := 0; gi < nG; gi++ {
+			go func(gi int) {
+				defer func() { done <- gi }()
+				for _, pi := range picks[gi] {
+					var res string
+					p, m := guard(func() { res = pure[pi].run(c, opts, &c11State{captured: &c11Captured{}}) })
+					if p {
+						res = "PANIC " + m
+					}
+					results[gi] = append(results[gi], res)
+				}
+			}(gi)
+		}
+		for gi := 0; gi < nG; gi++ {
+			<-done
+		}
+		after := snapshotNoReads(c, ren)
+		var alone, together []string
+		for gi, ps := range picks {
+			for j, pi := range ps {
+				alone = append(alone, "("+coqStr(pure[pi].name)+", "+coqStr(base[pi])+")")
+				together = append(together, "("+coqStr(pure[pi].name)+", "+coqStr(results[gi][j])+")")
+			}
+		}
+		g.Add(Case{Coq: fmt.Sprintf("CConc11 %d%%N %s %s %s %s", nG, before.coq, after.coq, coqList(alone), coqList(together)),
+			Desc: map[string]interface{}{"kind": "concurrent", "goroutines": nG, "reads per goroutine": 12, "config": before.desc, "after": after.desc,
+				"replay": map[string]interface{}{"data": encTree(data)}},
+			Tags: []string{"concurrent", fmt.Sprintf("goroutines=%d", nG)}, Nontrivial: true})
+	}
+}
+
+func snapshotNoReads(c *ucfg.Config, ren *renamer) snapT {
+	n := ucfg.VerifDump(c)
+	path := c.Path(".")
+	return snapT{
+		coq:  fmt.Sprintf("{| sn_tree := %s; sn_ids := %s; sn_path := %s; sn_reads := [] |}", coqValue(n), coqIds(n, ren), coqStr(path)),
+		desc: map[string]interface{}{"tree": descValue(n), "objects": descIds(n, ren), "path": path},
 	}
 }
